@@ -223,12 +223,12 @@ func c09Scenarios(tier string) []*mcrt.Scenario {
 		tolMs, waitMs uint
 		pause         time.Duration
 	}
-	for _, pace := range []paceT{{50, 10, 200 * time.Millisecond}, {60000, 3000, 5 * time.Second}} {
+	for _, pace := range []paceT{{50, 10, 200 * time.Millisecond}, {60000, 3000, 5 * time.Second}, {50, 0, 200 * time.Millisecond}} { // the last: a tolerance without a retry pause
 		for _, capN := range []int{0, 1} {
 			capN, pace := capN, pace
 			tol := time.Duration(pace.tolMs) * time.Millisecond
 			scs = append(scs, &mcrt.Scenario{
-				Name: fmt.Sprintf("pausing-source tolerance=%v consumer-cap=%d", tol, capN), Bound: 2, Horizon: 100000, Prune: true,
+				Name: fmt.Sprintf("pausing-source tolerance=%v retry-pause=%dms consumer-cap=%d", tol, pace.waitMs, capN), Bound: 2, Horizon: 100000, Prune: true,
 				Body: func(x *mcrt.X) {
 					obs := &c09Obs{}
 					x.Data = obs
